@@ -19,14 +19,18 @@
 EXTENDS Integers, Sequences, FiniteSets, TLC, SequencesExt
 
 VARIABLES
-  cf,        \* [doms : Seq([kind, l, u, n]), p2e : Seq(Seq(Int)), norepeat, finite, twin]
+  cf,        \* [doms : Seq([kind, l, u, n]), p2e : Seq(Seq(Int)), norepeat, finite, nofail]
+             \* nofail: the searcher promises not to suggest the configuration of a FAILED trial again (random search keeps
+             \* the configurations of failed trials on its exclusion list even when duplicates are allowed)
   queue,     \* imputed, de-duplicated initial configurations still to be suggested
   suggested, \* set of configurations suggested so far
   nsug,      \* number of suggestions
   done,      \* the searcher answered "nothing left"
+  byTrial,   \* set of <<trial, configuration>>: which configuration each trial was started with
+  failedc,   \* configurations of trials that failed
   flags
 
-vars == <<cf, queue, suggested, nsug, done, flags>>
+vars == <<cf, queue, suggested, nsug, done, byTrial, failedc, flags>>
 Flag(c, f) == IF c THEN {f} ELSE {}
 
 \* "cont": a continuous domain; the driver logs index 0 for a value inside the bounds (exact comparison), -1 otherwise
@@ -63,41 +67,49 @@ Member(c) == Len(c) = Len(cf.doms) /\ \A i \in 1..Len(c) : c[i] >= 0 /\ c[i] < S
 
 InitCommon(c) ==
   /\ cf = c /\ queue = InitialQueue(c) /\ suggested = {} /\ nsug = 0 /\ done = FALSE /\ flags = {}
+  /\ byTrial = {} /\ failedc = {}
 
-\* suggest() returned a NEW configuration c (sequence of indices); bits computed by the driver:
+\* suggest() returned a NEW configuration c (sequence of indices) for trial t; bits computed by the driver:
 \* keys = all keys of the space present, consts = constants unchanged, types = every value has the domain's type
-EvSuggest(c, keys, consts, types) ==
+EvSuggest(t, c, keys, consts, types) ==
   /\ flags' = flags
        \cup Flag(~keys, "missing_key") \cup Flag(~consts, "constant_changed") \cup Flag(~types, "wrong_type")
        \cup Flag(~Member(c), "outside_domain")
        \cup Flag(queue # <<>> /\ c # Head(queue), "initial_order")
        \cup Flag(cf.norepeat /\ c \in suggested, "repeat")
+       \cup Flag(cf.nofail /\ c \in failedc, "failed_resuggested")                 \* C13
        \* (only where no-repeat is promised: PBT queues clones of known configurations although its random searcher is exhausted)
        \cup Flag(done /\ cf.norepeat, "suggest_after_nothing_left")
   /\ queue' = IF queue # <<>> THEN Tail(queue) ELSE queue
   /\ suggested' = suggested \cup {c}
   /\ nsug' = nsug + 1
-  /\ UNCHANGED <<cf, done>>
+  /\ byTrial' = byTrial \cup {<<t, c>>}
+  /\ UNCHANGED <<cf, done, failedc>>
 
 \* suggest() returned None ("nothing left")
 EvNone ==
   /\ flags' = flags \cup Flag((cf.norepeat /\ cf.finite /\ Cardinality(suggested) < SpaceSize) \/ queue # <<>>, "none_premature")
   /\ done' = TRUE
-  /\ UNCHANGED <<cf, queue, suggested, nsug>>
+  /\ UNCHANGED <<cf, queue, suggested, nsug, byTrial, failedc>>
 
-\* results, failures, completions do not change what may be suggested (they are logged for the history)
+\* results and completions do not change what may be suggested (they are logged for the history)
 EvOther == UNCHANGED vars
+\* on_trial_error(t): the configuration of trial t is one of a failed trial from now on
+EvFail(t) ==
+  /\ failedc' = failedc \cup {p[2] : p \in {q \in byTrial : q[1] = t}}
+  /\ UNCHANGED <<cf, queue, suggested, nsug, done, byTrial, flags>>
 
-EvCrash == flags' = flags \cup {"scheduler_raised"} /\ UNCHANGED <<cf, queue, suggested, nsug, done>>
+EvCrash == flags' = flags \cup {"scheduler_raised"} /\ UNCHANGED <<cf, queue, suggested, nsug, done, byTrial, failedc>>
 
 \* C16: the restored twin answered differently from the uninterrupted one
-EvDiverge == flags' = flags \cup {"twin_diverged"} /\ UNCHANGED <<cf, queue, suggested, nsug, done>>
+EvDiverge == flags' = flags \cup {"twin_diverged"} /\ UNCHANGED <<cf, queue, suggested, nsug, done, byTrial, failedc>>
 
 NoFlag(f) == f \notin flags
 AllKeysTypedInDomain == NoFlag("missing_key") /\ NoFlag("wrong_type") /\ NoFlag("outside_domain")
 ConstantsUnchanged   == NoFlag("constant_changed")
 InitialFirstInOrder  == NoFlag("initial_order")
 NoRepeat             == NoFlag("repeat")
+FailedNotResuggested == NoFlag("failed_resuggested")
 NoneOnlyWhenExhausted == NoFlag("none_premature") /\ NoFlag("suggest_after_nothing_left")
 NeverRaises          == NoFlag("scheduler_raised")
 SameContinuation     == NoFlag("twin_diverged")
@@ -107,8 +119,11 @@ SameContinuation     == NoFlag("twin_diverged")
    consistency and to enumerate histories *)
 AllConfigs == {c \in [1..Len(cf.doms) -> 0..8] : Member(c)}
 A_Suggest ==
-  IF queue # <<>> THEN EvSuggest(Head(queue), TRUE, TRUE, TRUE)
-  ELSE LET free == IF cf.norepeat THEN AllConfigs \ suggested ELSE AllConfigs IN
-       IF free = {} THEN EvNone ELSE \E c \in free : EvSuggest(c, TRUE, TRUE, TRUE)
-Next == ~done /\ A_Suggest
+  IF queue # <<>> THEN EvSuggest(nsug, Head(queue), TRUE, TRUE, TRUE)
+  ELSE LET free == (IF cf.norepeat THEN AllConfigs \ suggested ELSE AllConfigs) \ (IF cf.nofail THEN failedc ELSE {}) IN
+       IF free = {} THEN EvNone ELSE \E c \in free : EvSuggest(nsug, c, TRUE, TRUE, TRUE)
+\* a trial started so far may fail (design level: at most two failed configurations)
+A_Fail == /\ Cardinality(failedc) < 2
+          /\ \E t \in {p[1] : p \in byTrial} : (\A p \in byTrial : p[1] = t => p[2] \notin failedc) /\ EvFail(t)
+Next == ~done /\ (A_Suggest \/ A_Fail)
 =============================================================================
